@@ -464,4 +464,41 @@ three cells and a non-zero cell size along every axis -/
 def ExactMesh (f : Fld) : Prop :=
   FullyValid f ∧ ∀ a, a < f.mesh.ndim → periodic f a = false ∧ 3 ≤ f.mesh.nAt a ∧ f.mesh.cellAt a ≠ 0
 
+/-! ### spec layer for the quarter turn -/
+
+/-- well-formed mesh and arrays: what the constructors of Region / Mesh / Field guarantee -/
+structure MeshWf (f : Fld) : Prop where
+  pmax_len : f.mesh.region.pmax.length = f.mesh.ndim
+  n_len : f.mesh.n.length = f.mesh.ndim
+  dims : DimsOk f
+  units_len : f.mesh.region.units.length = f.mesh.ndim
+  pos : ∀ x, x < f.mesh.ndim → f.mesh.region.lo x < f.mesh.region.hi x ∧ 0 < f.mesh.nAt x
+  bc_lower : f.mesh.bc.toLower = f.mesh.bc
+  bc_ok : Mesh.bcOk f.mesh.region.dims f.mesh.bc = true
+  data_shape : f.data.shape = f.mesh.n
+  valid_shape : f.valid.shape = f.mesh.n
+
+/-- the cell that a quarter turn in the plane `(a, b)` moves to position `i` -/
+def rotIdx (f : Fld) (a b : Nat) (i : List Nat) : List Nat :=
+  setAt (setAt i a (i.getD b 0)) b (f.mesh.nAt b - 1 - i.getD a 0)
+
+/-- what one quarter turn in the plane of axes `a ≠ b` does, as far as differentiation is
+concerned: geometry (cell counts and cell sizes of the two axes swapped, names and `bc`
+kept) and where every value and validity flag comes from -/
+structure IsRot90 (f R : Fld) (a b : Nat) : Prop where
+  ndim : R.mesh.ndim = f.mesh.ndim
+  dims : R.mesh.region.dims = f.mesh.region.dims
+  bc : R.mesh.bc = f.mesh.bc
+  n_a : R.mesh.nAt a = f.mesh.nAt b
+  n_b : R.mesh.nAt b = f.mesh.nAt a
+  n_e : ∀ e, e ≠ a → e ≠ b → R.mesh.nAt e = f.mesh.nAt e
+  h_a : R.mesh.cellAt a = f.mesh.cellAt b
+  h_b : R.mesh.cellAt b = f.mesh.cellAt a
+  h_e : ∀ e, e ≠ a → e ≠ b → R.mesh.cellAt e = f.mesh.cellAt e
+  valid : ∀ i, R.valid.get i = f.valid.get (rotIdx f a b i)
+  nvdim : R.nvdim = f.nvdim
+
+/-- sign a reversal gives the stencil of order `o` -/
+def revSign (o : Nat) : Rat := if o = 1 then -1 else 1
+
 end DFV.C05
